@@ -68,7 +68,57 @@ func buildDecInputs(g *gen.G, nValid, mutPer int, kinds []string) []decInput {
 		}
 		_ = i
 	}
-	return append(append(inputs, skipFamily()...), tailFamily()...)
+	return append(append(append(inputs, skipFamily()...), tailFamily()...), enumFamily()...)
+}
+
+// enumFamily: every Enumeration and Integer item of a few well-formed messages set, one at a time, to EVERY value 0..0x60 and to
+// the boundary values of 32-bit arithmetic. Random byte mutation essentially never produces one particular small number in one
+// particular item; this family produces all of them. (Operation, Object Type, Credential Type and the attribute names select
+// what the decoder builds next, so each of them is a table lookup that has to be total.)
+func enumFamily() []decInput {
+	var out []decInput
+	ver := kmip.ProtocolVersion{Major: 1, Minor: 4}
+	bases := []struct {
+		typ string
+		val interface{}
+	}{
+		{"Request", &kmip.Request{Header: kmip.RequestHeader{Version: ver, BatchCount: 1, Authentication: kmip.Authentication{CredentialType: kmip.CREDENTIAL_TYPE_USERNAME_AND_PASSWORD, CredentialValue: kmip.CredentialUsernamePassword{Username: "u", Password: "p"}}},
+			BatchItems: []kmip.RequestBatchItem{{Operation: kmip.OPERATION_GET, RequestPayload: kmip.GetRequest{UniqueIdentifier: "k"}}}}},
+		{"Request", &kmip.Request{Header: kmip.RequestHeader{Version: ver, BatchCount: 1},
+			BatchItems: []kmip.RequestBatchItem{{Operation: kmip.OPERATION_CREATE, RequestPayload: kmip.CreateRequest{ObjectType: kmip.OBJECT_TYPE_SYMMETRIC_KEY,
+				TemplateAttribute: kmip.TemplateAttribute{Attributes: kmip.Attributes{
+					{Name: kmip.ATTRIBUTE_NAME_CRYPTOGRAPHIC_ALGORITHM, Value: kmip.CRYPTO_AES},
+					{Name: kmip.ATTRIBUTE_NAME_CRYPTOGRAPHIC_LENGTH, Value: int32(128)}}}}}}}},
+		{"Response", &kmip.Response{Header: kmip.ResponseHeader{Version: ver, TimeStamp: time.Unix(1000000000, 0), BatchCount: 1},
+			BatchItems: []kmip.ResponseBatchItem{{Operation: kmip.OPERATION_GET, ResultStatus: kmip.RESULT_STATUS_SUCCESS, ResponsePayload: kmip.GetResponse{ObjectType: kmip.OBJECT_TYPE_SYMMETRIC_KEY, UniqueIdentifier: "k",
+				SymmetricKey: kmip.SymmetricKey{KeyBlock: kmip.KeyBlock{FormatType: kmip.KEY_FORMAT_RAW, Value: kmip.KeyValue{KeyMaterial: []byte{1, 2, 3}}, CryptographicAlgorithm: kmip.CRYPTO_AES, CryptographicLength: 24}}}}}}},
+		{"Response", &kmip.Response{Header: kmip.ResponseHeader{Version: ver, TimeStamp: time.Unix(1000000000, 0), BatchCount: 1},
+			BatchItems: []kmip.ResponseBatchItem{{Operation: kmip.OPERATION_DESTROY, ResultStatus: kmip.RESULT_STATUS_OPERATION_FAILED, ResultReason: kmip.RESULT_REASON_ITEM_NOT_FOUND, ResultMessage: "no"}}}},
+	}
+	var values []uint32
+	for v := uint32(0); v <= 0x60; v++ {
+		values = append(values, v)
+	}
+	values = append(values, 0x7f, 0x80, 0xff, 0x100, 0xffff, 0x10000, 0x7fffffff, 0x80000000, 0x80000001, 0xfffffffe, 0xffffffff)
+	for _, b := range bases {
+		var eb bytes.Buffer
+		if err := kmip.NewEncoder(&eb).Encode(b.val); err != nil {
+			continue
+		}
+		data := eb.Bytes()
+		out = append(out, decInput{typ: b.typ, data: data, origin: "enum-valid"})
+		for _, n := range mut.All(mut.Parse(data)) {
+			if (n.Typ != 5 && n.Typ != 2) || n.Len != 4 {
+				continue
+			}
+			for _, v := range values {
+				m := append([]byte(nil), data...)
+				binary.BigEndian.PutUint32(m[n.Off+8:], v)
+				out = append(out, decInput{typ: b.typ, data: m, origin: "enum-sweep"})
+			}
+		}
+	}
+	return out
 }
 
 // skipFamily: items that only a field annotated `skip` can claim never come out of Encode, so they are built by hand: a third
